@@ -39,6 +39,9 @@ def source_lexicons(src_version: str):
     """(label, [lexicons]) in src_version."""
     a = distinct_meta(lmfgen.full_lexicon(src_version))
     a['synsets'][0].pop('ili_definition')      # ILIDefinition of a synset with an existing ILI: known finding K16
+    a['citation'] = 'Multi-line citation:\nsecond line\twith a tab, a "quote", <angle> & ampersand'
+    if a.get('meta'):
+        a['meta']['description'] = 'first line\nsecond line'
     # counts: first sense without counts so that count rowids differ from sense rowids
     a['entries'][0]['senses'].insert(0, {'id': 'l-s0', 'synset': 'l-ss3', 'meta': None})
     a['entries'][0]['senses'][1]['counts'] = [{'value': 3, 'meta': {'note': 'count A'}},
@@ -160,10 +163,11 @@ def _job(args):
                 for d in (f'd1_{k}', f'd2_{k}'):
                     os.makedirs(os.path.join(work, d))
                 wn.config.data_directory = os.path.join(work, f'd1_{k}')
-                src = os.path.join(work, 'src.xml')
-                lmf.dump({'lmf_version': src_version, 'lexicons': lexicons}, src)
-                original = lmf.load(src, progress_handler=None)
-                wn.add(src, progress_handler=None)
+                # the source goes in through the in-memory route, so that the expectation does not depend on
+                # lmf.dump (which is also what export writes with)
+                original = {'lmf_version': src_version, 'lexicons': copy.deepcopy(lexicons)}
+                wn.add_lexical_resource({'lmf_version': src_version, 'lexicons': copy.deepcopy(lexicons)},
+                                        progress_handler=None)
                 exp = os.path.join(work, 'exp.xml')
                 wn.export(wn.lexicons(), exp, version=exp_version)
                 back = lmf.load(exp, progress_handler=None)
